@@ -9,7 +9,7 @@ IV = "indi.device.properties.instance.vectors"
 KIND_VALUE = {"Number": Const(1.5), "Text": Const("txt"), "Switch": Const("Off"), "Light": Const("Ok"), "BLOB": Const(None)}
 
 
-def make_vector(p: Program, kind: str, name="V1", enabled=True, group_enabled=True, elements=(("a", "A", True), ("b", "B", True)), device=None, rule="AnyOfMany"):
+def make_vector(p: Program, kind: str, name="V1", enabled=True, group_enabled=True, elements=(("first", "A", True), ("second", "B", True)), device=None, rule="AnyOfMany"):
     vcls = p.cls(f"{IV}.{kind}Vector")
     ecls = p.cls(f"{IE}.{kind}")
     drv = device or Obj(p.cls("indi.device.driver.Driver"), {"_name": Const("DEV"), "_router": Const(None)}, label="driver")
